@@ -63,10 +63,36 @@ def run(tier):
         ct = [(bb, t) for bb, t in bf.calls() if callee_name(t).endswith('Configuration::create_tx_config')]
         if len(rw) != 1 or len(ct) != 1:
             raise CheckError('anchor: %s calls rx_windows %d / create_tx_config %d times' % (fn, len(rw), len(ct)))
-        a = peel(term_of_operand(bf, rw[0][1].args[1]))
-        same = isinstance(a, tuple) and a[0] == 'field' and a[2] == '1' and isinstance(a[1], tuple) and a[1][0] == 'call' and a[1][3] == ct[0][0]
-        res.require(same, 'C10:%s:rx-windows-source' % fn, 'rx_windows is not computed from the TxChannel of this transmission: %s' % term_str(a), short_site(bf, rw[0][0]),
-                    'SAME-VALUE(TxChannel of create_tx_config)', instance='%s: rx_windows(&create_tx_config(..).1) of the same call' % fn)
+        # the windows as a value of THIS call: rx_windows expanded at its call site (its parameters replaced by what the caller passes),
+        # so the rule is about where frequency and data rate come from, not about rx_windows' signature
+        wbf = c.bf(D + 'mac::Mac::rx_windows')
+        ex = peel(layout.subst_params(rules.term_of_local(wbf, 0), [term_of_operand(bf, x) for x in rw[0][1].args]))
+
+        def of_this_channel(t_, field):
+            t_ = peel(t_)
+            return isinstance(t_, tuple) and t_[0] == 'field' and t_[2] == field and (lambda a_: isinstance(a_, tuple) and a_[0] == 'field' and a_[2] == '1' and isinstance(a_[1], tuple)
+                                                                                      and a_[1][0] == 'call' and a_[1][3] == ct[0][0])(peel(t_[1]))
+        okw = ex[0] == 'agg' and ex[1].endswith('mac::RxWindows')
+        why = 'rx_windows does not reduce to RxWindows { .. }'
+        if okw:
+            fl_ = {k_: peel(v_) for k_, v_ in ex[2]}
+            r1, r2 = fl_.get('rx1'), fl_.get('rx2')
+            okw = is_call(r1, 'Mac::build_rf_config') and is_call(r2, 'Mac::rx2_rf_config')
+            why = 'RxWindows { rx1, rx2 } are not (build_rf_config(..), rx2_rf_config(..))'
+        if okw:
+            a1 = [peel(x) for x in r1[2]]
+            rdr = a1[2]
+            okw = of_this_channel(a1[1], 'rx1_frequency') and of_this_channel(a1[3], 'dr') and window_of(c, bf, a1[4]) == '_1'
+            why = 'RX1 is not build_rf_config(rx1_frequency and dr of the channel transmitted on, .., Window::_1): %s' % [term_str(x)[:70] for x in a1[1:]]
+            if okw:
+                okw = is_call(rdr, 'Configuration::get_rx_datarate') and of_this_channel(rdr[2][1], 'dr') and field_path(rdr[2][2])[1][-2:] == ['configuration', 'rx1_dr_offset'] and \
+                    window_of(c, bf, rdr[2][3]) == '_1'
+                why = 'RX1 data rate is not get_rx_datarate(dr transmitted, configuration.rx1_dr_offset, Window::_1): %s' % term_str(rdr)[:160]
+            if okw:
+                okw = of_this_channel(r2[2][1], 'dr')
+                why = 'RX2 is not rx2_rf_config(dr transmitted): %s' % term_str(r2[2][1])[:120]
+        res.require(okw, 'C10:%s:rx-windows-source' % fn, 'the receive windows are not computed from the channel and data rate of this transmission: %s' % why, short_site(bf, rw[0][0]),
+                    'SAME-VALUE(TxChannel of create_tx_config -> RX1 frequency, RX1 data rate, RX2)', instance='%s: RX1 = (rx1_frequency, table(dr, rx1_dr_offset)), RX2 from dr, all of the TxChannel of the same create_tx_config call' % fn)
         # the returned TxConfig comes from the same call, the returned windows from that rx_windows call
         rets = []
         for b in bf.body.blocks:
@@ -101,33 +127,10 @@ def run(tier):
         raise CheckError('floor: state constructions carrying rx_windows %d < 4' % n_carry)
     # ------------------------------------------------------------------ (b) window parameters
     bf = c.bf(D + 'mac::Mac::rx_windows')
-    self_, txc = 1, 2
     calls = {callee_name(t).split('::')[-1]: (bb, t) for bb, t in bf.calls()}
     for need in ('get_rx_datarate', 'build_rf_config', 'rx2_rf_config'):
         if need not in calls:
             raise CheckError('anchor: Mac::rx_windows does not call %s' % need)
-    bb, t = calls['get_rx_datarate']
-    a = [peel(term_of_operand(bf, x)) for x in t.args]
-    ok1 = field_path(a[1]) == (('param', txc), ['dr']) and field_path(a[2]) == (('param', self_), ['configuration', 'rx1_dr_offset']) and window_of(c, bf, a[3]) == '_1'
-    res.require(ok1, 'C10:rx_windows:rx1-datarate', 'RX1 data rate is not get_rx_datarate(tx_channel.dr, configuration.rx1_dr_offset, Window::_1): %s' % [term_str(x) for x in a[1:]],
-                short_site(bf, bb), 'PROVENANCE(RX1 data rate)', instance='RX1 dr = region table(tx_channel.dr, rx1_dr_offset, Window::_1)')
-    bb, t = calls['build_rf_config']
-    a = [peel(term_of_operand(bf, x)) for x in t.args]
-    ok2 = field_path(a[1]) == (('param', txc), ['rx1_frequency']) and is_call(a[2], 'get_rx_datarate') and field_path(a[3]) == (('param', txc), ['dr']) and window_of(c, bf, a[4]) == '_1'
-    res.require(ok2, 'C10:rx_windows:rx1-config', 'RX1 is not build_rf_config(tx_channel.rx1_frequency, rx1 dr, tx_channel.dr, Window::_1)', short_site(bf, bb), 'PROVENANCE(RX1)',
-                instance='RX1 = build_rf_config(tx_channel.rx1_frequency, rx1 dr, ..)')
-    bb, t = calls['rx2_rf_config']
-    a = [peel(term_of_operand(bf, x)) for x in t.args]
-    res.require(field_path(a[1]) == (('param', txc), ['dr']), 'C10:rx_windows:rx2-config', 'RX2 is not rx2_rf_config(tx_channel.dr)', short_site(bf, bb), 'PROVENANCE(RX2)',
-                instance='RX2 = rx2_rf_config(tx_channel.dr)')
-    # the aggregate puts them in the right slots
-    aggs = [s for b in bf.body.blocks if not b.cleanup for s in b.stmts if s.k == 'assign' and s.rv.k == 'agg' and (s.rv.d.get('adt') or '').endswith('mac::RxWindows')]
-    oka = len(aggs) == 1
-    if oka:
-        fl = dict(zip(aggs[0].rv.d['fields'], [peel(term_of_operand(bf, o)) for o in aggs[0].rv.ops]))
-        oka = is_call(fl.get('rx1'), 'build_rf_config') and is_call(fl.get('rx2'), 'rx2_rf_config')
-    res.require(oka, 'C10:rx_windows:slots', 'RxWindows { rx1, rx2 } are not (build_rf_config(..), rx2_rf_config(..))', bf.body.path, 'SHAPE(RxWindows)',
-                instance='RxWindows{rx1: RX1 config, rx2: RX2 config}')
     # rx2_rf_config
     bf = c.bf(D + 'mac::Mac::rx2_rf_config')
     bcalls = [(bb, t) for bb, t in bf.calls() if callee_name(t).endswith('build_rf_config')]
